@@ -7,7 +7,8 @@ GInit == Init /\ hist = <<>>
 GNext == \/ Restart /\ hist' = Append(hist, [a |-> "restart", d |-> 0])
          \/ \E w \in Workers :
               \/ Take(w) /\ UNCHANGED hist
-              \/ Begin(w) /\ UNCHANGED hist
+              \/ Begin(w) /\ hist' = IF Skips(wd[w]) /\ attempts[wd[w]] = 0 THEN hist
+                                         ELSE Append(hist, [a |-> "begin", d |-> wd[w]])     \* Job.evaluate entered: constraints hook
               \/ ReturnOk(w)        /\ hist' = Append(hist, [a |-> "ok", d |-> wd[w]])
               \/ ReturnTransient(w) /\ hist' = Append(hist, [a |-> "transient", d |-> wd[w]])
               \/ ReturnFatal(w)     /\ hist' = Append(hist, [a |-> "fatal", d |-> wd[w]])
